@@ -2,8 +2,8 @@ SPECIFICATION Spec
 CONSTANTS
   REQ = {1, 2, 3}
   T = 2
-  ACCEPT = {0, 1}
-  DELAY = {1, 2, 3}
+  ACCEPT = {0, 1, 2}
+  DELAY = {0, 1, 2, 3}
   EX = 0
   INST = {0}
   SIDE = {"buy"}
